@@ -63,4 +63,14 @@ def probeInterp (len nbr : Nat) : Interp σ :=
       (List.range len).foldl (fun (acc : σ) k =>
         acc + wave.getD (index + k) SNum.zero * SNum.ofCtl (RNum.ofInt (ρ := ρ) (probeWeight k sub))) SNum.zero }
 
+/-- the harness's linear-interpolation probe: the line through the two samples around the window centre,
+evaluated at `index + len/2 - 1 + (sub+1)/nbr` -/
+def lprobeInterp (len nbr : Nat) : Interp σ :=
+  { len := len, nbr := nbr,
+    dot := fun wave index sub =>
+      let a := wave.getD (index + len / 2 - 1) SNum.zero
+      let b := wave.getD (index + len / 2) SNum.zero
+      let w : σ := SNum.ofCtl ((RNum.ofNat (ρ := ρ) sub + RNum.one) / RNum.ofNat nbr)
+      a + w * (b - a) }
+
 end Rubato
